@@ -245,6 +245,8 @@ pub fn generate(rng: &mut Rng, tier: Tier) -> Plan {
             let nv = if many { rng.usize_in(20, 150) } else { rng.usize_in(0, 4) };
             let names = if many {
                 (0..nv).map(|i| format!("v{}", i)).collect()
+            } else if rng.chance(0.15) {
+                hostile_names(rng, nv.max(1))
             } else {
                 odd_names(rng, nv.max(1))
             };
